@@ -13,9 +13,23 @@ for sec in secs:
     if want and name not in want:
         continue
     m = re.search(r'```\n(.*?)```', sec, re.S)
-    if not m:
-        print("no message for", name); continue
-    msg = m.group(1).strip() + "\n"
+    if m:
+        msg = m.group(1).strip() + "\n"
+    else:
+        # indented-block layout: lines starting with 4 spaces (blank lines allowed) right after the header
+        body = sec.split('\n', 1)[1]
+        lines = []
+        started = False
+        for l in body.split('\n'):
+            if l.startswith('    '):
+                lines.append(l[4:]); started = True
+            elif l.strip() == '' and started:
+                lines.append('')
+            elif started:
+                break
+        msg = '\n'.join(lines).strip() + "\n"
+        if not msg.strip():
+            print("no message for", name); continue
     assert msg.startswith("fix:"), name
     path = os.path.join(os.path.dirname(os.path.abspath(sys.argv[1])), name)
     r = subprocess.run(["git", "-C", "/repo", "apply", "--index", path], capture_output=True, text=True)
